@@ -8,13 +8,17 @@
    lane-level model says (Model/Regs.v for x86 — which Props/C13.v proves lane-wise faithful —, the lane-wise scalar
    specification for NEON, `fallback_ops` for Fallback).  A changed intrinsic, immediate, operand order or delegation
    target in the source changes the generated definition and breaks the generated lemma of that method.
-   Trusted: Model/Intrinsics.v (meaning of the intrinsics) and the translator. *)
+   Scalar loops over the transmuted lanes (integer `div` of every vector back end, NEON i64/u64 `mul` / `max` / `min`)
+   are rendered with the loop / array-store / panic vocabulary of Model/RustLoops.v; their generated definitions are
+   OPTION-valued (None = panic) and the lemma states when they panic as well as what they return.
+   Trusted: Model/Intrinsics.v (meaning of the intrinsics), Model/RustLoops.v (loop, array store, panic) and the
+   translator. *)
 From Coq Require Import ZArith List Bool String.
 From Flocq Require Import IEEE754.BinarySingleNaN.
-From CF Require Import Model.Tables Model.Prim Model.SimdApi Model.Regs Model.Intrinsics Model.RegTable.
+From CF Require Import Model.Tables Model.Prim Model.SimdApi Model.Regs Model.Intrinsics Model.RustLoops Model.RegTable.
 From CF Require Import Gen.GenRegs.
-From CF Require Import Proofs.ReduceCorrect Proofs.IntReduce Proofs.IntBackends Proofs.FloatBackends Proofs.GenRegsSpec
-     Proofs.GenRegsProofs Proofs.NeonSpec.
+From CF Require Import Proofs.ListFacts Proofs.ReduceCorrect Proofs.IntReduce Proofs.IntBackends Proofs.FloatBackends
+     Proofs.GenRegsSpec Proofs.GenRegsProofs Proofs.NeonSpec.
 Import ListNotations.
 
 (* every generated definition refines the lane-level model of its back end
@@ -35,23 +39,29 @@ Theorem C13_gen_counts :
   /\ Z.of_nat (List.length gen_reg_methods + List.length gen_reg_untranslated) = fst gen_reg_counts.
 Proof. exact gen_counts. Qed.
 
-(* the lane-wise methods of every back end, their dense forms and roll-ups and the horizontal folds ARE in the table
-   (a method that became untranslatable would otherwise silently leave the theorem above); NOT in it: load / write (raw
-   pointers), integer div (scalar loop, panics), the NEON i64/u64 mul / max / min (scalar loops) and the AVX2 f64
-   sum_to_value (poison register + bit-casts) — see Gen/GenRegs.gen_reg_untranslated *)
+(* the lane-wise methods of every back end (now including integer div / div_dense and, on NEON, all eight integer
+   types), their dense forms and roll-ups and the horizontal folds ARE in the table (a method that became
+   untranslatable would otherwise silently leave the theorem above); NOT in it: load / write (raw pointers; Props/C07Mem.v),
+   the AVX2 f64 sum_to_value (poison register + bit-casts) and Fallback elements_per_lane / elements_per_dense
+   (mem::size_of of the generic type) — see Gen/GenRegs.gen_reg_untranslated *)
 Theorem C13_gen_priority_covered :
-  covered Avx2 int_tys (lane_methods ++ fold_methods)%list = true
+  covered Avx2 int_tys (MDiv :: MDivDense :: lane_methods ++ fold_methods)%list = true
   /\ covered Avx2 float_tys (MDiv :: MDivDense :: MMaxToValue :: MMinToValue :: lane_methods) = true
   /\ covered Avx2Fma float_tys (MDiv :: MDivDense :: MMaxToValue :: MMinToValue :: lane_methods) = true
   /\ covered Avx2 [F32] [MSumToValue] = true /\ covered Avx2Fma [F32] [MSumToValue] = true
-  /\ covered Avx512 int_tys (lane_methods ++ fold_methods)%list = true
+  /\ covered Avx512 int_tys (MDiv :: MDivDense :: lane_methods ++ fold_methods)%list = true
   /\ covered Avx512 float_tys (MDiv :: MDivDense :: lane_methods ++ fold_methods)%list = true
-  /\ covered Neon [I8; I16; I32; U8; U16; U32] (lane_methods ++ fold_methods)%list = true
+  /\ covered Neon int_tys (MDiv :: MDivDense :: lane_methods ++ fold_methods)%list = true
   /\ covered Neon float_tys (MDiv :: MDivDense :: lane_methods ++ fold_methods)%list = true
-  /\ covered Neon [I64; U64]
-       (MFilled :: MZeroed :: MAdd :: MSub :: MAddDense :: MSubDense :: MSumToRegister :: fold_methods) = true
-  /\ List.length gen_fallback_table = 22.
+  /\ fb_covered (MDiv :: MDivDense :: lane_methods_fb ++ fold_methods)%list = true.
 Proof. exact gen_priority_covered. Qed.
+
+(* which generated definitions may panic (option-valued shape): exactly integer div / div_dense, and on NEON the 64-bit
+   mul / max / min scalar loops with what is built on them — for these the lemma proves they never do; a method that
+   starts (or stops) being able to panic changes shape and breaks this *)
+Theorem C13_gen_opt_shapes :
+  forallb (fun e => let '(r, t, m, g) := e in Bool.eqb (is_opt g) (opt_expected r t m)) gen_reg_table = true.
+Proof. exact gen_opt_shapes. Qed.
 
 Theorem C13_gen_covered_refines :
   forall r t m, has_entry r t m = true -> exists g, In (r, t, m, g) gen_reg_table /\ reg_goal r t m g.
@@ -63,6 +73,19 @@ Theorem C13_gen_avx2_u8_mul :
     lanes_of 8 (gen_Avx2_u8_mul (bytes_of 8 x) (bytes_of 8 y)) = r_mul (avx2_int_ops false 8) x y
     /\ lanes_of 8 (gen_Avx2_u8_mul (bytes_of 8 x) (bytes_of 8 y)) = map2 (i_mul 8) x y.
 Proof. exact gen_avx2_u8_mul. Qed.
+
+(* integer division: value AND panic behaviour *)
+Theorem C13_gen_avx2_i8_div :
+  forall x y, List.length x = 32 -> List.length y = 32 -> Forall (in_range 8) x -> Forall (in_range 8) y ->
+    option_map (lanes_of 8) (gen_Avx2_i8_div (bytes_of 8 x) (bytes_of 8 y)) = r_div (avx2_int_ops true 8) x y
+    /\ option_map (lanes_of 8) (gen_Avx2_i8_div (bytes_of 8 x) (bytes_of 8 y)) = sequence (map2 (i_div true 8) x y)
+    /\ (gen_Avx2_i8_div (bytes_of 8 x) (bytes_of 8 y) = None <-> In 0%Z y).
+Proof. exact gen_avx2_i8_div. Qed.
+
+Theorem C13_gen_neon_u64_max :
+  forall x y, List.length x = 2 -> List.length y = 2 -> Forall (in_range 64) x -> Forall (in_range 64) y ->
+    option_map (lanes_of 64) (gen_Neon_u64_max (bytes_of 64 x) (bytes_of 64 y)) = Some (map2 (i_max false 64) x y).
+Proof. exact gen_neon_u64_max. Qed.
 
 Theorem C13_gen_neon_i8_add :
   forall x y, List.length x = 16 -> List.length y = 16 -> Forall (in_range 8) x -> Forall (in_range 8) y ->
@@ -89,12 +112,19 @@ Proof. exact neon_f64_faithful. Qed.
 Check C13_gen_refines. Check reg_goal. Check method_goal.
 
 (* Non-vacuity: the generated AVX2 u8 multiply RUN on bytes >= 128 (where a signed or saturating slip would show), the
-   generated AVX2 u64 max across the sign bit, the generated AVX-512 i8 multiply (mask_blend form), NEON u16 min. *)
+   generated AVX2 u64 max across the sign bit, the generated AVX-512 i8 multiply (mask_blend form), NEON u16 min; the
+   generated AVX2 i8 division loop: -128 / -1 wraps to -128, -7 / 2 truncates to -3, a zero divisor lane panics; the NEON
+   u64 max loop across the sign bit. *)
 Example C13_gen_nonvacuous :
   gen_Avx2_u8_mul (map Z.of_nat (seq 224 32)) (repeat 255%Z 32) = map (fun i => (Z.of_nat (224 + i) * 255 mod 256)%Z) (seq 0 32)
   /\ lanes_of 64 (gen_Avx2_u64_max (bytes_of 64 [1; 2 ^ 63; 5; 2 ^ 64 - 1]%Z) (bytes_of 64 [2 ^ 63 + 1; 7; 5; 0]%Z))
      = [2 ^ 63 + 1; 2 ^ 63; 5; 2 ^ 64 - 1]%Z
   /\ gen_Avx512_i8_mul (map Z.of_nat (seq 100 64)) (repeat 3%Z 64) = map (fun i => (Z.of_nat (100 + i) * 3 mod 256)%Z) (seq 0 64)
   /\ lanes_of 16 (gen_Neon_u16_min (bytes_of 16 [1; 65535; 300; 4; 5; 6; 7; 32768]%Z) (bytes_of 16 [2; 1; 299; 4; 0; 7; 6; 32767]%Z))
-     = [1; 1; 299; 4; 0; 6; 6; 32767]%Z.
+     = [1; 1; 299; 4; 0; 6; 6; 32767]%Z
+  /\ option_map (lanes_of 8) (gen_Avx2_i8_div ([128; 249; 100]%Z ++ repeat 6%Z 29)%list ([255; 2; 7]%Z ++ repeat 3%Z 29)%list)
+     = Some ([128; 253; 14]%Z ++ repeat 2%Z 29)%list
+  /\ gen_Avx2_i8_div (repeat 1%Z 32) (repeat 1%Z 31 ++ [0%Z])%list = None
+  /\ option_map (lanes_of 64) (gen_Neon_u64_max (bytes_of 64 [1; 2 ^ 63]%Z) (bytes_of 64 [2 ^ 63 + 1; 7]%Z))
+     = Some [2 ^ 63 + 1; 2 ^ 63]%Z.
 Proof. vm_compute. repeat split; reflexivity. Qed.
